@@ -357,7 +357,12 @@ impl SharedRateLimiter {
                 // Try again after waiting
                 let mut state = self.state.lock().unwrap();
                 match state.try_acquire() {
-                    Ok(additional_wait) => Ok(wait_duration + additional_wait),
+                    // Only `Ok(ZERO)` means a permit was consumed.
+                    Ok(Duration::ZERO) => Ok(wait_duration),
+                    // `Ok(wait)` means the permit we waited for was taken by another
+                    // caller in the meantime: we hold nothing, so the call must not
+                    // be admitted.
+                    Ok(_) => Err(()),
                     Err(_) => Err(()), // Timeout exceeded
                 }
             }
